@@ -108,6 +108,8 @@ func upJoin(s *cases.Set, r *cq.RNG, p lorawan.PHYPayload, k lorawan.AES128Key, 
 		}
 	}()
 	t := framefmt.Phy(p, 0)
+	tb, _ := marshalQuiet(p)
+	q := p
 	func() {
 		defer func() {
 			if e := recover(); e != nil {
@@ -116,12 +118,12 @@ func upJoin(s *cases.Set, r *cq.RNG, p lorawan.PHYPayload, k lorawan.AES128Key, 
 		}()
 		oval = obool(p.ValidateUplinkJoinMIC(k))
 	}()
+	frameUnchanged(s, "ValidateUplinkJoinMIC", t, tb, &p)
 	ks := fmt.Sprintf("upjoin:key=%s:mic=%s:%s", hx(k[:]), hows[how], t)
 	rp := map[string]interface{}{"api": "SetUplinkJoinMIC on a copy, ValidateUplinkJoinMIC on the frame as given", "key": hx(k[:]), "frame": t,
 		"previous_compared_call": lastKey, "observed": map[string]string{"set": oset, "validate": oval}}
 	s.Add(cases.Case{Term: fmt.Sprintf("CUpJoin %s %s %s %s", cq.Bytes(k[:]), t, oset, oval), Key: ks, Kind: kind, Nontrivial: true, Replay: rp})
 	lastKey = clip(ks)
-	q := p
 	s.Remember(ks, oset+" "+oval, rp, func() (res string) {
 		defer func() {
 			if e := recover(); e != nil {
@@ -158,6 +160,8 @@ func downJoin(s *cases.Set, r *cq.RNG, p lorawan.PHYPayload, ty lorawan.JoinType
 		}
 	}()
 	t := framefmt.Phy(p, 0)
+	tb, _ := marshalQuiet(p)
+	q := p
 	func() {
 		defer func() {
 			if e := recover(); e != nil {
@@ -166,13 +170,13 @@ func downJoin(s *cases.Set, r *cq.RNG, p lorawan.PHYPayload, ty lorawan.JoinType
 		}()
 		oval = obool(p.ValidateDownlinkJoinMIC(ty, je, dn, k))
 	}()
+	frameUnchanged(s, "ValidateDownlinkJoinMIC", t, tb, &p)
 	ks := fmt.Sprintf("downjoin:type=%d:joineui=%s:devnonce=%d:key=%s:mic=%s:%s", byte(ty), hx(je[:]), uint16(dn), hx(k[:]), hows[how], t)
 	rp := map[string]interface{}{"api": "SetDownlinkJoinMIC on a copy, ValidateDownlinkJoinMIC on the frame as given", "joinReqType": byte(ty), "joinEUI": hx(je[:]),
 		"devNonce": uint16(dn), "key": hx(k[:]), "frame": t, "previous_compared_call": lastKey, "observed": map[string]string{"set": oset, "validate": oval}}
 	s.Add(cases.Case{Term: fmt.Sprintf("CDownJoin %d %s %d %s %s %s %s", byte(ty), cq.Bytes(je[:]), uint16(dn), cq.Bytes(k[:]), t, oset, oval),
 		Key: ks, Kind: kind, Nontrivial: true, Replay: rp})
 	lastKey = clip(ks)
-	q := p
 	s.Remember(ks, oset+" "+oval, rp, func() (res string) {
 		defer func() {
 			if e := recover(); e != nil {
@@ -307,6 +311,153 @@ func aesDecCase(s *cases.Set, k, b []byte, name string) {
 		Replay: map[string]interface{}{"api": "crypto/aes Decrypt", "key": hx(k), "block": hx(b), "observed": hx(o)}})
 }
 
+func marshalQuiet(p lorawan.PHYPayload) (b []byte, err error) {
+	defer func() {
+		if r := recover(); r != nil {
+			b, err = nil, fmt.Errorf("panic")
+		}
+	}()
+	return p.MarshalBinary()
+}
+
+// frameUnchanged: a call that only inspects the frame must leave it printing and marshalling as before.
+func frameUnchanged(s *cases.Set, what, before string, bb []byte, p *lorawan.PHYPayload) {
+	after := framefmt.Phy(*p, 0)
+	ab, _ := marshalQuiet(*p)
+	if before != after || !bytes.Equal(bb, ab) {
+		s.Fail(cases.GoFail{Key: "validate-changes-frame:" + what + ":" + before, What: what + " changed the frame it only inspects",
+			Replay: map[string]interface{}{"api": what, "frame_before": before, "frame_after": after, "bytes_before": hx(bb), "bytes_after": hx(ab)}})
+	}
+}
+
+func mic4(t [16]byte) (m lorawan.MIC) { copy(m[:], t[:4]); return }
+
+// relatedFormulas: join frames carrying a MIC that is correct under a RELATED formula (computed here with
+// internal/micforge's own CMAC): for join-accepts the 1.0 form (MHDR | payload) and the 1.1 form
+// (JoinReqType | JoinEUI | DevNonce | MHDR | payload) whatever OptNeg says, the right form with another JoinReqType /
+// JoinEUI (also byte-reversed) / DevNonce (also byte-swapped) / key, the form without MHDR; for join- and
+// rejoin-requests the prefixed form, the form without MHDR, another key. Each is an ordinary case: the model decides.
+func relatedFormulas(s *cases.Set, r *cq.RNG, i int) {
+	k, k2 := key(r), key(r)
+	c, c2 := micforge.New(k), micforge.New(k2)
+	ty := joinTypes[i%4]
+	je, dn := eui(r), lorawan.DevNonce(1+r.Intn(65535))
+	pre := func(ty lorawan.JoinType, je lorawan.EUI64, dn lorawan.DevNonce) []byte {
+		b := []byte{byte(ty)}
+		for j := 7; j >= 0; j-- {
+			b = append(b, je[j])
+		}
+		return append(b, byte(dn), byte(dn>>8))
+	}
+	ja := framefmt.JoinFrame(r, 1)
+	ja.MACPayload.(*lorawan.JoinAcceptPayload).DLSettings.OptNeg = i%2 == 0
+	body, err := ja.MACPayload.MarshalBinary()
+	if err == nil {
+		mh, _ := ja.MHDR.MarshalBinary()
+		msg := append(append([]byte{}, mh...), body...)
+		var jr lorawan.EUI64
+		for j := range jr {
+			jr[j] = je[7-j]
+		}
+		cands := []struct {
+			name string
+			mic  lorawan.MIC
+		}{
+			{"form-1.0", mic4(c.CMAC(msg))},
+			{"form-1.1", mic4(c.CMAC(append(pre(ty, je, dn), msg...)))},
+			{"form-1.0-other-key", mic4(c2.CMAC(msg))},
+			{"form-1.1-other-key", mic4(c2.CMAC(append(pre(ty, je, dn), msg...)))},
+			{"form-1.1-other-joinreqtype", mic4(c.CMAC(append(pre(joinTypes[(i+1)%4], je, dn), msg...)))},
+			{"form-1.1-joineui-reversed", mic4(c.CMAC(append(pre(ty, jr, dn), msg...)))},
+			{"form-1.1-other-devnonce", mic4(c.CMAC(append(pre(ty, je, dn+1), msg...)))},
+			{"form-1.1-devnonce-swapped", mic4(c.CMAC(append(pre(ty, je, dn<<8|dn>>8), msg...)))},
+			{"form-without-mhdr", mic4(c.CMAC(body))},
+			{"form-1.1-mhdr-first", mic4(c.CMAC(append(append([]byte{}, mh...), append(pre(ty, je, dn), body...)...)))},
+		}
+		for _, cd := range cands {
+			f := ja
+			f.MIC = cd.mic
+			downJoin(s, r, f, ty, je, dn, k, 3, "related-formula-join-accept:"+cd.name)
+		}
+	}
+	up := framefmt.JoinFrame(r, []int{0, 2, 3, 4}[i%4])
+	if ub, err := up.MACPayload.MarshalBinary(); err == nil {
+		mh, _ := up.MHDR.MarshalBinary()
+		msg := append(append([]byte{}, mh...), ub...)
+		for _, cd := range []struct {
+			name string
+			mic  lorawan.MIC
+		}{
+			{"plain", mic4(c.CMAC(msg))},
+			{"other-key", mic4(c2.CMAC(msg))},
+			{"prefixed-like-1.1-accept", mic4(c.CMAC(append(pre(ty, je, dn), msg...)))},
+			{"without-mhdr", mic4(c.CMAC(ub))},
+			{"mhdr-twice", mic4(c.CMAC(append(append([]byte{}, mh...), msg...)))},
+		} {
+			f := up
+			f.MIC = cd.mic
+			upJoin(s, r, f, k, 3, "related-formula-join-request:"+cd.name)
+		}
+	}
+}
+
+// opaqueJoin: a join / rejoin frame as a forwarder holds it: the MACPayload is an opaque *DataPayload whose bytes
+// are a window into a receive buffer (spare capacity, sentinel bytes behind). Set/ValidateUplinkJoinMIC must leave
+// the buffer alone, give the same verdict a second time, and compute the MIC of the typed frame with these bytes.
+func opaqueJoin(s *cases.Set, r *cq.RNG, i int) {
+	typed := framefmt.JoinFrame(r, []int{0, 2, 3, 4}[i%4])
+	b, err := typed.MACPayload.MarshalBinary()
+	if err != nil {
+		return
+	}
+	k := key(r)
+	want := typed
+	if want.SetUplinkJoinMIC(k) != nil {
+		return
+	}
+	spare := []int{1, 4, 16, 40}[i%4]
+	buf := make([]byte, 1+len(b)+spare+8)
+	for j := range buf {
+		buf[j] = byte(0x5a + 3*j)
+	}
+	copy(buf[1:], b)
+	snap := append([]byte{}, buf...)
+	f := lorawan.PHYPayload{MHDR: typed.MHDR, MACPayload: &lorawan.DataPayload{Bytes: buf[1 : 1+len(b) : 1+len(b)+spare]}, MIC: want.MIC}
+	for pass := 0; pass < 2; pass++ {
+		upJoin(s, r, f, k, 3, "opaque-join-payload")
+		if !bytes.Equal(buf, snap) {
+			s.Fail(cases.GoFail{Key: fmt.Sprintf("caller-memory-modified:opaque-join:pass%d:%s", pass, framefmt.Phy(typed, 0)), What: "Set/ValidateUplinkJoinMIC wrote into the buffer that holds the opaque join payload",
+				Replay: map[string]interface{}{"frame": framefmt.Phy(typed, 0), "key": hx(k[:]), "spare_capacity": spare, "buffer_before": hx(snap), "buffer_after": hx(buf)}})
+			copy(buf, snap)
+		}
+	}
+	got := f
+	if err := got.SetUplinkJoinMIC(k); err != nil || got.MIC != want.MIC {
+		s.Fail(cases.GoFail{Key: "opaque-join-mic-differs:" + framefmt.Phy(typed, 0), What: "the MIC of a join frame held as opaque bytes differs from the MIC of the typed frame with the same bytes",
+			Replay: map[string]interface{}{"frame": framefmt.Phy(typed, 0), "key": hx(k[:]), "typed_mic": hx(want.MIC[:]), "opaque_mic": hx(got.MIC[:])}})
+	}
+	copy(buf, snap)
+	// the same window through DecryptJoinAcceptPayload (ciphertext held in a receive buffer)
+	ja := framefmt.JoinFrame(r, 1)
+	if encrypt(&ja, k) != cq.Err {
+		if dp, ok := ja.MACPayload.(*lorawan.DataPayload); ok {
+			buf2 := make([]byte, len(dp.Bytes)+spare+8)
+			for j := range buf2 {
+				buf2[j] = byte(0xc3 + 5*j)
+			}
+			copy(buf2, dp.Bytes)
+			snap2 := append([]byte{}, buf2...)
+			g := ja
+			g.MACPayload = &lorawan.DataPayload{Bytes: buf2[:len(dp.Bytes):len(dp.Bytes)+spare]}
+			decCase(s, g, k, "opaque-join-payload")
+			if !bytes.Equal(buf2, snap2) {
+				s.Fail(cases.GoFail{Key: "caller-memory-modified:decrypt-join-accept:" + hx(snap2), What: "DecryptJoinAcceptPayload wrote into the buffer that holds the ciphertext",
+					Replay: map[string]interface{}{"key": hx(k[:]), "buffer_before": hx(snap2), "buffer_after": hx(buf2), "spare_capacity": spare}})
+			}
+		}
+	}
+}
+
 var lastMIC lorawan.MIC // the MIC the previous Set* call computed
 var forged, forgedHit int
 
@@ -427,7 +578,7 @@ func main() {
 	r := cq.NewRNG(seed)
 	nr = cq.NewRNG(seed ^ 0x9e3779b97f4a7c15)
 	s := cases.New("C04", dir, "LW.Corr.C04",
-		"RFC 4493 examples and the FIPS-197 C.1 decryption first; corpus: join-accept with channel-mask CFList [m0; 0] (C04-1). Join-request and rejoin-request types 0, 1, 2 (palindromic EUIs in 25%), carried MIC valid / random / bit-flipped; join-accept frames with OptNeg both ways, CFList absent / 5 channels / 1..6 masks, JoinNonce 0 and 2^24-1 boundaries, all four JoinReqType values cycled, palindromic and non-palindromic JoinEUI, DevNonce boundaries; EncryptJoinAcceptPayload (device-side aes.Encrypt check in Go and in Coq), Decrypt with the same and with another key, malformed inputs (wrong payload types, lengths not 16/32, JoinNonce >= 2^24). Special MIC values: rejoin-requests type 0/2 CONSTRUCTED (internal/micforge: the single padded CMAC block solved from the tag, ~2^21 trials for pad byte, MHDR and RejoinType) so that their correct MIC is 00000000, ffffffff, 00000001 or the MIC of the previous case; join-accepts carrying these four MIC values through Encrypt / Decrypt (round trip) and Set/Validate. History: unrelated library calls (internal/noise) before every compared call; fail-then-valid families run back to back (a failing Set/Validate/Encrypt call - rejoin payload with the wrong RejoinType, JoinNonce >= 2^24, nil payload - immediately followed by a valid uplink join MIC, join-accept MIC and encryption, and the first valid call again), each compared with model and specification; every MIC call is repeated three times later in the process (reverse, same, shuffled order) and must give its first result. Distinct by construction (random keys) except the repeated calls.")
+		"RFC 4493 examples and the FIPS-197 C.1 decryption first; corpus: join-accept with channel-mask CFList [m0; 0] (C04-1). Join-request and rejoin-request types 0, 1, 2 (palindromic EUIs in 25%), carried MIC valid / random / bit-flipped; join-accept frames with OptNeg both ways, CFList absent / 5 channels / 1..6 masks, JoinNonce 0 and 2^24-1 boundaries, all four JoinReqType values cycled, palindromic and non-palindromic JoinEUI, DevNonce boundaries; EncryptJoinAcceptPayload (device-side aes.Encrypt check in Go and in Coq), Decrypt with the same and with another key, malformed inputs (wrong payload types, lengths not 16/32, JoinNonce >= 2^24). Special MIC values: rejoin-requests type 0/2 CONSTRUCTED (internal/micforge: the single padded CMAC block solved from the tag, ~2^21 trials for pad byte, MHDR and RejoinType) so that their correct MIC is 00000000, ffffffff, 00000001 or the MIC of the previous case; join-accepts carrying these four MIC values through Encrypt / Decrypt (round trip) and Set/Validate. Related formulas: join frames carrying a MIC that is correct under a related formula (own CMAC: 1.0 form and 1.1 form whatever OptNeg says, other key, other JoinReqType, JoinEUI reversed, DevNonce + 1 / byte-swapped, without MHDR, MHDR first; for requests: prefixed, without MHDR, MHDR twice, other key) - the model decides each verdict. Opaque payloads: join / rejoin frames held as *DataPayload over a window of a receive buffer with spare capacity and sentinels (buffer unchanged, same verdict twice, MIC = typed-frame MIC), ciphertext windows through DecryptJoinAcceptPayload. After every Validate* call the frame must print and marshal as before. Every MIC call is also repeated from 8 goroutines at once. History: unrelated library calls (internal/noise) before every compared call; fail-then-valid families run back to back (a failing Set/Validate/Encrypt call - rejoin payload with the wrong RejoinType, JoinNonce >= 2^24, nil payload - immediately followed by a valid uplink join MIC, join-accept MIC and encryption, and the first valid call again), each compared with model and specification; every MIC call is repeated three times later in the process (reverse, same, shuffled order) and must give its first result. Distinct by construction (random keys) except the repeated calls.")
 	s.ShardSize = 150
 	n := 400
 	if thorough {
@@ -513,6 +664,12 @@ func main() {
 		if i%4 == 2 {
 			failThenValid(s, r, i/4)
 		}
+		if i%8 == 1 {
+			relatedFormulas(s, r, i/8)
+		}
+		if i%8 == 5 {
+			opaqueJoin(s, r, i/8)
+		}
 		if i%5 == 0 { // malformed
 			m := framefmt.JoinFrame(r, r.Intn(5))
 			switch r.Intn(4) {
@@ -538,6 +695,7 @@ func main() {
 		}
 	}
 	s.ReplayRemembered(nr.Intn, 3, func() { noise.Step(nr) })
+	s.ReplayConcurrently(8, 3, 60*time.Second)
 	if err := s.Finish(); err != nil {
 		fmt.Fprintln(os.Stderr, err)
 		os.Exit(2)
